@@ -1036,6 +1036,18 @@ class Hist(Scenario):
         self.g("reset", "-q", mode, "HEAD~%d" % n)
         self.ops.append("reset:" + mode)
 
+    def agent_deletion_pending(self):
+        """finding D99: a stash round trip turns the zero-length mark of an agent's delete-only edit into a claim on the next line;
+        while it is open (flag off) no stash is made over pending work that contains such an edit."""
+        if self.profile.get("stash_over_agent_deletion", True):
+            return False
+        for ent in reversed(self.log):
+            if ent[:2] == ["git", "commit"] or (ent[0] == "git" and len(ent) > 1 and ent[1] in ("reset", "checkout", "switch")):
+                break
+            if ent[0] == "edit" and ent[2] != "human" and str(ent[3]).startswith("del"):
+                return True
+        return False
+
     def op_stash(self, between=None, how=None):
         rng = self.rng
         args = rng.choice([["stash"], ["stash", "push", "-q", "-u"], ["stash", "push", "-q"]])
@@ -1046,14 +1058,9 @@ class Hist(Scenario):
             if unt & set(self.pending_initial_files()):
                 self.ops.append("stash:skipped-D70")
                 return
-        if not self.profile.get("stash_over_agent_deletion", True):
-            # finding D99: a stash round trip turns the zero-length mark of an agent's delete-only edit into a claim on the next line
-            for ent in reversed(self.log):
-                if ent[:2] == ["git", "commit"] or (ent[0] == "git" and len(ent) > 1 and ent[1] in ("reset", "checkout", "switch", "stash")):
-                    break
-                if ent[0] == "edit" and ent[2] != "human" and str(ent[3]).startswith("del"):
-                    self.ops.append("stash:skipped-D99")
-                    return
+        if self.agent_deletion_pending():
+            self.ops.append("stash:skipped-D99")
+            return
         self.report_human_edits()
         self.g(*args)
         self.ops.append("stash:push")
